@@ -8,46 +8,48 @@ import (
 
 // Entry point to typecheck programs
 func Typecheck(processes []*Process, assumedFreeNames []Name, globalEnv *GlobalEnvironment) error {
-	errorChan := make(chan error)
-	doneChan := make(chan bool)
+	errorChan := make(chan error, 1)
 
 	globalEnv.log(LOGINFO, "Initiating typechecking")
 
-	// Running in a separate process allows us to break the typechecking part as soon as the first
-	// error is found
-	go typecheckFunctionsAndProcesses(processes, assumedFreeNames, globalEnv, errorChan, doneChan)
+	// The typechecker stops at the first error found. The result channel is buffered, so the
+	// typechecking goroutine always terminates once it has reported its result
+	go func() {
+		errorChan <- typecheckFunctionsAndProcesses(processes, assumedFreeNames, globalEnv)
+	}()
 
-	select {
-	case err := <-errorChan:
+	if err := <-errorChan; err != nil {
 		return err
-	case <-doneChan:
-		globalEnv.log(LOGINFO, "Typecheck successful")
 	}
+
+	globalEnv.log(LOGINFO, "Typecheck successful")
 
 	return nil
 }
 
-func typecheckFunctionsAndProcesses(processes []*Process, assumedFreeNames []Name, globalEnv *GlobalEnvironment, errorChan chan error, doneChan chan bool) {
+func typecheckFunctionsAndProcesses(processes []*Process, assumedFreeNames []Name, globalEnv *GlobalEnvironment) (err error) {
 	defer func() {
-		// No error found, notify parent
-		doneChan <- true
+		// An internal failure is reported as an error (never as a successful typecheck)
+		if r := recover(); r != nil {
+			err = fmt.Errorf("internal typechecker error: %v", r)
+		}
 	}()
 
 	assignTypesToProcessProviders(processes)
 
 	// Start with some preliminary check on the labelled types
 	if err := preliminaryTypesDefinitionsChecks(globalEnv); err != nil {
-		errorChan <- err
+		return err
 	}
 
 	// Check that function definitions are well formed
 	if err := preliminaryFunctionDefinitionsChecks(globalEnv); err != nil {
-		errorChan <- err
+		return err
 	}
 
 	// Check that processes are well formed
 	if err := preliminaryProcessesChecks(processes, assumedFreeNames, globalEnv); err != nil {
-		errorChan <- err
+		return err
 	}
 
 	globalEnv.log(LOGRULEDETAILS, "Preliminary checks ok")
@@ -58,17 +60,19 @@ func typecheckFunctionsAndProcesses(processes []*Process, assumedFreeNames []Nam
 
 	// Typecheck function definitions
 	if err := typecheckFunctionDefinitions(globalEnv); err != nil {
-		errorChan <- err
+		return err
 	}
 
 	globalEnv.log(LOGRULEDETAILS, "Function declarations typecheck ok")
 
 	// Typecheck process definitions
 	if err := typecheckProcesses(processes, assumedFreeNames, globalEnv); err != nil {
-		errorChan <- err
+		return err
 	}
 
 	globalEnv.log(LOGRULEDETAILS, "Process declarations typecheck ok")
+
+	return nil
 }
 
 // Sets a common type to all provider names
